@@ -77,7 +77,7 @@ class NegSoftplusTransform(SoftplusTransform):
         Args:
             upper (ArrayLike): Upper bound of the interval.
         """
-        super().__init__(upper)
+        super().__init__(-upper)
 
     def forward(self, x: ArrayLike) -> Array:
         return -super().forward(-x)
